@@ -810,7 +810,7 @@ def asan_layer(env, scale, prop=None):
             binary = build_harness(env, "release", toolchain="nightly", rustflags="-Zsanitizer=address -Cforce-frame-pointers=yes", target="x86_64-unknown-linux-gnu", target_dir=tdir)
         except LayerInconclusive as e:
             raise LayerInconclusive("AddressSanitizer build unavailable: %s" % str(e)[-300:])
-        e = {"ASAN_OPTIONS": "halt_on_error=1:abort_on_error=0:detect_leaks=1:exitcode=77"}
+        e = {"ASAN_OPTIONS": "halt_on_error=1:abort_on_error=0:detect_leaks=1:exitcode=77", "TZMON_HANG_CPU_S": "1800"}
         try:
             r = run_tzmon(env, profile="asan", binary=binary, scale=scale, prop=prop, name="asan", extra_env=e, timeout=3000)
             r["sanitizer_reports"] = 0
@@ -841,7 +841,7 @@ def coverage_layer(env, scale, files):
         prof = os.path.join(env.work, "cov-%s-%d.profraw" % (env.prop, os.getpid()))
         data = prof.replace(".profraw", ".profdata")
         try:
-            r = run_tzmon(env, profile="coverage", binary=binary, scale=scale, name="coverage", extra_env={"LLVM_PROFILE_FILE": prof}, timeout=3000)
+            r = run_tzmon(env, profile="coverage", binary=binary, scale=scale, name="coverage", extra_env={"LLVM_PROFILE_FILE": prof, "TZMON_HANG_CPU_S": "1800"}, timeout=3000)
             rc, out, err, _ = run([os.path.join(tools[0], "llvm-profdata"), "merge", "-sparse", prof, "-o", data], timeout=600)
             if rc != 0:
                 raise Skip("llvm-profdata failed")
